@@ -432,6 +432,86 @@ pub fn table_pnmsg(dir: &str, tier: &str, seed: u64, per: usize) -> (usize, u64)
     w.finish()
 }
 
+/// Table `misc` (growth beyond the listed properties): derived orderings, equality and hashing of the
+/// message types agree with the order of the MIDI 1.0 table; constants; TimeCodeType <-> u8.
+pub fn table_misc(dir: &str, _tier: &str, seed: u64, per: usize) -> (usize, u64) {
+    use std::collections::hash_map::DefaultHasher;
+    use std::hash::{Hash, Hasher};
+    let mut w = ChunkWriter::new(dir, per);
+    let mut r = Lcg(seed.wrapping_mul(977).wrapping_add(1));
+    let mut sample: Vec<[i64; 4]> = vec![];
+    for v in 0..=3 {
+        for &(c, a, b) in &[(0i64, 0i64, 0i64), (0, 0, 1), (0, 1, 0), (1, 0, 0), (15, 127, 127), (3, 64, 5)] {
+            sample.push([v, c, a, b]);
+        }
+        sample.push([v, r.below(16) as i64, r.below(128) as i64, r.below(128) as i64]);
+    }
+    for v in 4..=5 {
+        for &(c, a) in &[(0i64, 0i64), (0, 1), (1, 0), (15, 127)] {
+            sample.push([v, c, a, 0]);
+        }
+    }
+    for &(c, a) in &[(0i64, 0i64), (0, 1), (1, 0), (15, 16383), (2, 8192)] {
+        sample.push([6, c, a, 0]);
+    }
+    for k in 0..7 {
+        sample.push([8, k, 0, 0]);
+        sample.push([8, k, 15, 0]);
+    }
+    for a in 0..2 {
+        for t in 0..4 {
+            sample.push([8, 7, a, t]);
+        }
+    }
+    for &a in &[0i64, 1, 16383] {
+        sample.push([9, a, 0, 0]);
+    }
+    for &a in &[0i64, 1, 127] {
+        sample.push([10, a, 0, 0]);
+    }
+    for v in [7, 11, 12, 13, 14, 15, 16, 17, 18, 19, 20, 21, 22] {
+        sample.push([v, 0, 0, 0]);
+    }
+    let h = |x: &StructuredShortMessage| {
+        let mut s = DefaultHasher::new();
+        x.hash(&mut s);
+        s.finish()
+    };
+    for a in &sample {
+        for b in &sample {
+            let (x, y) = (structured_of(*a), structured_of(*b));
+            let cmp = match x.cmp(&y) {
+                std::cmp::Ordering::Less => 0,
+                std::cmp::Ordering::Equal => 1,
+                std::cmp::Ordering::Greater => 2,
+            };
+            // the same relation on the raw form (RawShortMessage derives Eq / Hash only)
+            let (rx, ry): (RawShortMessage, RawShortMessage) = (x.to_other(), y.to_other());
+            w.push(&[0, a[0], a[1], a[2], a[3], b[0], b[1], b[2], b[3], cmp, (x == y) as i64, (h(&x) == h(&y)) as i64,
+                     (rx == ry) as i64]);
+        }
+    }
+    for &a in TYPES.iter() {
+        for &b in TYPES.iter() {
+            let (x, y) = (ty(a), ty(b));
+            let cmp = match x.cmp(&y) {
+                std::cmp::Ordering::Less => 0,
+                std::cmp::Ordering::Equal => 1,
+                std::cmp::Ordering::Greater => 2,
+            };
+            w.push(&[1, a, b, cmp, (x == y) as i64]);
+        }
+    }
+    w.push(&[2, ShortMessageType::MIN as i64, ShortMessageType::MAX as i64]);
+    for v in 0..=255i64 {
+        match TimeCodeType::try_from(v as u8) {
+            Ok(t) => w.push(&[3, v, 1, u8::from(t) as i64]),
+            Err(_) => w.push(&[3, v, 0, -1]),
+        }
+    }
+    w.finish()
+}
+
 pub fn row_from_inputs(name: &str, a: &[i64]) -> Vec<i64> {
     match name {
         "factory" => factory_row(a[0], a[1], [a[2], a[3], a[4], a[5]]),
@@ -444,6 +524,7 @@ pub fn table(name: &str, dir: &str, tier: &str, seed: u64, per: usize) -> (usize
     match name {
         "factory" => table_factory(dir, tier, seed, per),
         "pnmsg" => table_pnmsg(dir, tier, seed, per),
+        "misc" => table_misc(dir, tier, seed, per),
         _ => panic!("unknown table {name}"),
     }
 }
